@@ -420,13 +420,13 @@ type Proxy struct {
 
 var _ service.IInsertServiceV2 = (*Proxy)(nil)
 
-func (p *Proxy) Run()                            { p.Real.Run() }
-func (p *Proxy) Stop()                           { p.Real.Stop() }
-func (p *Proxy) Ping() (time.Time, error)        { return p.Real.Ping() }
-func (p *Proxy) GetState(insertMode int) int     { return p.Real.GetState(insertMode) }
-func (p *Proxy) GetNodeName() string             { return p.Real.GetNodeName() }
-func (p *Proxy) Init()                           { p.Real.Init() }
-func (p *Proxy) PlanFlush()                      { p.Real.PlanFlush() }
+func (p *Proxy) Run()                        { p.Real.Run() }
+func (p *Proxy) Stop()                       { p.Real.Stop() }
+func (p *Proxy) Ping() (time.Time, error)    { return p.Real.Ping() }
+func (p *Proxy) GetState(insertMode int) int { return p.Real.GetState(insertMode) }
+func (p *Proxy) GetNodeName() string         { return p.Real.GetNodeName() }
+func (p *Proxy) Init()                       { p.Real.Init() }
+func (p *Proxy) PlanFlush()                  { p.Real.PlanFlush() }
 
 // Request records the rows of req, forwards it and watches the promise.
 func (p *Proxy) Request(req helpers.SizeGetter, insertMode int) *promise.Promise[uint32] {
